@@ -1005,7 +1005,7 @@ class Router(object):
                     if final:
                         raise ValueError(pattern)
                     tokens.append(part[1: -1])
-                    re_str += "\\/?(.+)"
+                    re_str += "\\/(.+)"
                     final = True
                 else:
                     tokens.append(part[1:])
